@@ -184,6 +184,42 @@ func runC17Whole(c *Ctx) {
 			if mi, ok := src.(*ssa.MakeInterface); ok {
 				if rd, ok := mi.X.(*ssa.Call); ok && calleeFullName(&rd.Call) == "strings.NewReader" {
 					rdArg := resolveCapture(rd.Call.Args[0])
+					// the pattern with its first character replaced by another single character (so that the scanner
+					// does not drop a byte order mark): same length in characters, same columns
+					if ph, ok := rdArg.(*ssa.Phi); ok {
+						var prm ssa.Value
+						same := true
+						for _, e := range ph.Edges {
+							e = resolveCapture(e)
+							if _, isP := e.(*ssa.Parameter); isP {
+								if prm != nil && prm != e {
+									same = false
+								}
+								prm = e
+								continue
+							}
+							okEdge := false
+							if bo, ok := e.(*ssa.BinOp); ok && bo.Op == token.ADD {
+								if cs, ok := constString(bo.X); ok && len([]rune(cs)) == 1 {
+									if sl, ok := bo.Y.(*ssa.Slice); ok && sl.High == nil {
+										if _, isP := resolveCapture(sl.X).(*ssa.Parameter); isP {
+											if prm != nil && prm != resolveCapture(sl.X) {
+												same = false
+											}
+											prm = resolveCapture(sl.X)
+											okEdge = true
+										}
+									}
+								}
+							}
+							if !okEdge {
+								same = false
+							}
+						}
+						if same && prm != nil {
+							rdArg = prm
+						}
+					}
 					what = symName(rdArg)
 					if prm, ok := rdArg.(*ssa.Parameter); ok {
 						// the parameter is the pattern handed to the validator: every caller passes its own parameter on
